@@ -15,7 +15,10 @@ UNITS = ["years", "months", "weeks", "days", "hours", "minutes", "seconds", "mic
 RULE = ("generated: intervals (forward / inverted / absolute) over Date, naive DateTime and aware DateTime (25 odd zones incl. the ones that skipped a whole day, "
         "+ seed-rotated others, UTC, fixed offsets incl. sub-minute ones, start and end in different zones) x 8 units x step 1..12, spans of 0..60 steps and long "
         "ones up to 10^4 steps, starts on days 29-31 for month/year stepping, intervals laid across every kind of transition (a step landing inside a gap, "
-        "an end inside a repeated hour with fold 0/1, whole-day gaps), ends exactly reachable / one microsecond off, values next to 0001-01-01 and 9999-12-31; "
+        "an end inside a repeated hour with fold 0/1, whole-day gaps), MIXED-ZONE intervals laid across every sampled transition of one end's zone (mixed-zones-overlap / "
+        "mixed-zones-gap: start in zone A, end = an instant in / next to the repeated or skipped stretch of A expressed in UTC, a fixed offset or another zone: first pass, "
+        "second pass, boundaries +-1us; start a few steps away on or off the grid that reaches the end; forward / inverted / swapped / absolute; fixed-length and wall-clock units; "
+        "inside the Coq model: same dispatch entries, theorems range_mixed_zones_*), ends exactly reachable / one microsecond off, values next to 0001-01-01 and 9999-12-31; "
         "__iter__; `x in interval` for x at start/end +-1us, random x and x in other zones; every yielded x tested with `in`; single add/subtract calls with "
         "amounts up to 12*10^4.  Result = interval start/end/invert after construction + every yielded (wall, fold, utcoffset) + how the iteration ended "
         "(long lists: first/last 20, length, sha256, first non-monotone index).  non-trivial = every distinct (interval, unit, step) or (interval, x) input.")
@@ -196,6 +199,66 @@ WHOLE_DAY = [("Pacific/Kiritimati", (1994, 12, 31)), ("Pacific/Apia", (2011, 12,
              ("Pacific/Enderbury", (1994, 12, 31)), ("Pacific/Fakaofo", (2011, 12, 30)), ("Pacific/Kanton", (1994, 12, 31))]
 
 
+def _render(spec, U):
+    """the instant U (microseconds since 0001-01-01 UTC) expressed in the zone `spec`: (wall, fold)"""
+    if isinstance(spec, int):
+        return U + spec * T.MEG, 0
+    w, f, _o = T.ref_render(_tz(spec), U)
+    return w, f
+
+
+FINE_STEPS = [(4, 1), (4, 1), (4, 2), (5, 30), (5, 30), (5, 15), (5, 10), (5, 7), (5, 1), (6, 1800), (6, 600), (6, 7), (7, 900 * T.MEG), (7, 250000), (7, 999999)]
+WALL_STEPS = [(3, 1), (3, 1), (3, 2), (2, 1), (1, 1), (0, 1)]
+
+
+def _mixed_transition_cases(rnd, zs, big):
+    """Intervals whose start is in zone A and whose end is the same kind of value in another tzinfo B (UTC / fixed offset / other zone), laid across a
+    transition of A at UTC instant UT with |offset change| = L: the end is an instant within [UT - L - step, UT + L + step] (boundaries, +-1us, random:
+    first pass / second pass of a repeated hour, both sides of a gap), the start lies a few steps before it (after it for inverted intervals), on the
+    grid that reaches the end exactly or off it.  _variants adds the swapped pair (the transition then belongs to the END's zone) and absolute ones.
+    With different tzinfo objects every comparison is between instants, so the unchanged library is exact here; a change that re-expresses one end in
+    the other's zone (or compares wall clocks) shows up as values beyond the end / a range that stops early."""
+    out = []
+    others = ["UTC"] + FIXED
+    for name in zs:
+        for (tt, o_pre, o_post) in T.transition_probes(name, rnd, per_zone=5 if not big else 30):
+            UT = (tt + T.EPOCH_S) * T.MEG
+            L = abs(o_post - o_pre) * T.MEG
+            a = UT + min(o_pre, o_post) * T.MEG         # the repeated / skipped wall values are [a, a + L)
+            if not (T.US_DAY * 800 < a < T.MAX_WALL - T.US_DAY * 800) or L == 0:
+                continue
+            gap = o_post > o_pre
+            for rep in range((2 if gap else 5) if not big else (4 if gap else 8)):
+                zb_ = rnd.choice(others if rnd.random() < 0.6 else zs)
+                if repr(zb_) == repr(name):
+                    zb_ = "UTC" if name != "UTC" else 3600
+                wall_unit = rnd.random() < 0.2
+                unit, amount = rnd.choice(WALL_STEPS if wall_unit else FINE_STEPS)
+                down = rnd.random() < 0.35
+                sgn = -1 if down else 1
+                step = amount * (UNIT_SPAN_S[unit] * T.MEG if wall_unit else UNIT_US[unit])
+                delta = rnd.choice([-L, -L - 1, -L + 1, -1, 0, 1, L - 1, L, L + 1, -L // 2, L // 2, rnd.randrange(-L, L + 1), rnd.randrange(-L, L + 1),
+                                    rnd.randrange(-L, L + 1), rnd.randrange(-L - min(step, T.US_DAY), L + min(step, T.US_DAY) + 1)])
+                Ue = UT + delta
+                back = rnd.randrange(1, 4)
+                if wall_unit:
+                    # a start from which step `back` lands on a repeated / skipped wall value
+                    target = a + rnd.choice([0, L // 2, L - 1, rnd.randrange(L)])
+                    Ws = naive_shift(target, unit, -sgn * back * amount)
+                    if Ws is None:
+                        continue
+                    Ws, fs = _fix_wall(name, Ws), 1
+                else:
+                    m = rnd.choice([back, back + rnd.randrange(5), min(60, 2 * L // step + back)])
+                    Us = Ue - sgn * (m * step + rnd.choice([0, 0, 0, rnd.randrange(step), step // 2]))
+                    Ws, fs = _render(name, Us)
+                We, fe = _render(zb_, Ue)
+                if not (0 <= Ws <= T.MAX_WALL and 0 <= We <= T.MAX_WALL):
+                    continue
+                out += _variants(rnd, _range_case("mixed-zones-" + ("gap" if gap else "overlap"), 2, name, zb_, Ws, fs, We, fe, 0, unit, amount))
+    return out
+
+
 def cases(tier, seed):
     rnd = random.Random(seed)
     out = []
@@ -353,6 +416,10 @@ def cases(tier, seed):
         e = _end_for(rnd, kind, spec, Ws, 1, unit, amount, steps, sign)
         if e:
             out.append(_range_case("long", kind, spec, spec, Ws, 1 if kind else 0, e[0], e[1] if kind else 0, 0, unit, amount, 10050))
+    # E2: the two ends carry DIFFERENT tzinfo objects (so Python compares instants) and the interval is laid across a transition of ONE of the two zones:
+    #     the other end is an instant in / next to the repeated (or skipped) stretch, expressed in UTC, a fixed offset or another zone.
+    #     Own generator: the streams above keep their inputs for a given seed.
+    out += _mixed_transition_cases(random.Random(seed * 1000003 + 19), zs, big)
     # H: __iter__, membership of yielded values, contains, single shifts
     for c in list(out):
         if c["fn"] != "range":
@@ -769,14 +836,15 @@ def known(c, backend, r):
         inv = inst_of(sa, Ws, fs) > inst_of(sb, We, fe)
         if not ab and inv and r[2] == -1 and not _fold_pair(sa, Ws, fs, sb, We, fe):
             return "inverted-interval-contains-nothing"
-        if kind == 2 and repr(sa) == repr(sb):
-            # the value that is not a member is a repeated wall time and one of the ends is one too, with the other fold
+        if kind == 2:
+            # the value that is not a member is a repeated wall time and an end IN THE SAME ZONE (the stored start always is: every value is
+            # yielded in the start's zone; the end only when it carries the same tzinfo) is one too, with the other fold
             idx = -r[2] - 1
-            s_W, s_f = (We, fe) if (ab and inv) else (Ws, fs)
-            ev = expected_value(kind, sa, s_W, s_f, a[8], (-1 if inv and not ab else 1) * idx * a[9]) if idx else (s_W, s_f, 0, 0)
+            s_spec, s_W, s_f = (sb, We, fe) if (ab and inv) else (sa, Ws, fs)
+            ev = expected_value(kind, s_spec, s_W, s_f, a[8], (-1 if inv and not ab else 1) * idx * a[9]) if idx else (s_W, s_f, 0, 0)
             if ev and ev != "TypeError":
                 fx = ev[1] if ev[1] is not None else 1
-                if _fold_pair(sa, ev[0], fx, sa, Ws, fs) or _fold_pair(sa, ev[0], fx, sb, We, fe) or _fold_pair(sa, Ws, fs, sb, We, fe):
+                if _fold_pair(s_spec, ev[0], fx, sa, Ws, fs) or _fold_pair(s_spec, ev[0], fx, sb, We, fe) or _fold_pair(sa, Ws, fs, sb, We, fe):
                     return "same-zone-comparison-ignores-fold"
         return None
     if fn == "contains":
@@ -849,7 +917,10 @@ LEVEL_TEXT = ("Machine-checked Coq theorems about the TRANSLATED Interval.range 
               "the k-th yielded value is start.add(unit = k*step) computed from the start (loop invariant), the run yields exactly the prefix of that sequence up to the first element "
               "beyond the end, every yielded value lies between start and end, the end is yielded iff reachable, `in` is start <= x <= end; strict monotonicity and termination for "
               "dates, naive values, UTC/fixed offsets (all 8 units, every step >= 1, via strict monotonicity of month arithmetic with end-of-month clamping) and for every "
-              "well-formed zone with the fixed-length units; refutation of monotonicity for day stepping over a skipped day (Kiritimati witness).")
+              "well-formed zone with the fixed-length units; for ends carrying different tzinfo objects (start in a zone, end in UTC / a fixed offset / another zone) and the fixed-length units the run "
+              "yields exactly the indices whose instant start +- k*n units is not beyond the end's instant, the end is yielded iff its instant is on that grid, direction and `in` are decided by instants "
+              "(range_mixed_zones_stop_by_instant / _exact / _end_reached, interval_direction_mixed_zones, contains_mixed_zones); "
+              "refutation of monotonicity for day stepping over a skipped day (Kiritimati witness).")
 DESIGN_REF = "DESIGN.md section 4 C19"
 LEVEL_NOTE = ("Trusted: Coq kernel+VM; translator subclass in tools/vlib/gens/g90_range.py; hand model Model/IntervalRange.v (ordering, add/subtract dispatch, Interval.__init__) and "
               "Model/TzConvert.v validated by correspondence; Spec/Zone.v as a model of zoneinfo; extraction cross-checked with vm_compute.")
